@@ -624,6 +624,12 @@ func (s *ErrSigningFailure) Error() string {
 	return fmt.Sprintf("signing error: %v", s.Err)
 }
 
+// Unwrap makes the underlying error reachable for errors.Is and errors.As.
+func (s *ErrSigningFailure) Unwrap() error {
+	return s.Err
+}
+
+// Unwarp is a misspelling of Unwrap kept for backwards compatibility.
 func (s *ErrSigningFailure) Unwarp() error {
 	return s.Err
 }
